@@ -1,6 +1,7 @@
 package fakes
 
 import (
+	"os"
 	"context"
 	"encoding/binary"
 	"errors"
@@ -67,8 +68,15 @@ type LogSpec struct {
 }
 
 // NewChain creates a chain with a genesis block 0
+// debugQuiet drops the (very frequent) explicit-number header calls from the event log when a
+// complete log is being collected for a diagnosis
+var debugQuiet = os.Getenv("VERIF_DEBUG_DIR") != ""
+
 func NewChain(chainID uint64) *Chain {
 	c := &Chain{ChainIDv: chainID, salt: 1, maxEv: 600}
+	if os.Getenv("VERIF_DEBUG_DIR") != "" {
+		c.maxEv = 400000
+	}
 	c.canon = []*SimBlock{c.build(nil, 0, nil, 1_700_000_000)}
 	return c
 }
@@ -345,7 +353,9 @@ func (cl *ChainClient) HeaderByNumber(ctx context.Context, number *big.Int) (*ty
 	b := c.canon[n]
 	if tag == "" {
 		cl.noteServed(n)
-		c.ev("rpc HeaderByNumber(%d) -> %s", n, b.hash.Hex()[:10])
+		if !debugQuiet {
+			c.ev("rpc HeaderByNumber(%d) -> %s", n, b.hash.Hex()[:10])
+		}
 	} else {
 		c.ev("rpc HeaderByNumber(%s) -> %d", tag, n)
 	}
